@@ -86,6 +86,19 @@ CHECKS = {
         note="Go scheduler interleavings are sampled, the model is exhaustive; data races are observed by the race "
              "detector (auxiliary monitor). Known finding: unsynchronised pushes to a list held in a global.",
         design="5/C17"),
+    "C12": dict(
+        technique="TLA+ spec of the cast relation (HmsCast: Conforms, Cast, BadPaths) with its theorems model-checked "
+                  "by TLC over the enumerated (value, type, mode) space; every triple replayed on both DeepCast "
+                  "implementations; in-program and host-boundary forms replayed on both backends",
+        text="TLC enumerates all values/types of depth <= 1 (quick: + a slice of depth 2; thorough: all of depth 2) and "
+             "both modes, proves AdmittedConforms, ConformingUnchanged, StrictAdmitsOnlyByShape, RefusalNamesPosition, "
+             "PathsAgree on every triple and exports the specified verdict, admitted value and the set of offending "
+             "positions; runtime/value.DeepCast and interpreter/value.DeepCast must give the same verdict and value "
+             "and name one of the offending positions. `as`, annotated let and parse_json refusals must be catchable "
+             "with intact locals afterwards; non-conforming SpawnSync arguments must be refused without running.",
+        note="Trusted: HmsCast as the reading of the property's conversion list; floats as halves; the worker's "
+             "value projection.",
+        design="5/C12"),
 }
 
 NOT_YET = {}
